@@ -80,6 +80,8 @@ struct Thr {
   uint64_t spin_wver;
   uint64_t own_writes;
   uint64_t last_run; // step at which this thread last received the token
+  int burst; // running through a bounded spin after a spinner deviation
+  uint64_t burst_iters;
   volatile int release; // set by the main thread at the end of the execution: the real thread may exit now
   uintptr_t stack_addr;
   char hb_token;
@@ -313,7 +315,7 @@ static uint64_t state_hash() {
   for (int i = 0; i < MC_OPT_COUNT; i++) h = mix2(h, (uint64_t)g.opts[i]);
   for (int i = 0; i < g.nthr; i++) {
     Thr* t = &g.thr[i];
-    uint64_t th = mix4((uint64_t)t->id, t->hist, (uint64_t)(t->state * 8 + t->spinner * 4 + t->timed_out * 2 + t->fresh),
+    uint64_t th = mix4((uint64_t)t->id, t->hist, (uint64_t)(t->burst * 64 + t->state * 8 + t->spinner * 4 + t->timed_out * 2 + t->fresh),
                        (uint64_t)t->pend_kind);
     if (t->state == TS_BLOCKED) {
       // FIFO rank among waiters on the same address matters for the default wake pick
@@ -496,7 +498,11 @@ static void reschedule(Thr* me) {
       Alt a = alts[c];
       Thr* t = &g.thr[a.tid];
       if (a.type == 1) {
+        // "the spin budget ran out before the peer moved": one deviation lets the spinner run on through
+        // its bounded spin (it is not yielded again until it changes memory, blocks, or is switched away)
         t->spinner = 0;
+        t->burst = 1;
+        t->burst_iters = 0;
       } else if (a.type == 2) {
         fire_timeout(t);
       } else if (a.type == 3) {
@@ -509,6 +515,7 @@ static void reschedule(Thr* me) {
         vlog("   [spurious futex return for T%d]\n", t->id);
       }
       if (t == me) return;
+      me->burst = 0;
       give_token(t);
       if (me->state == TS_FINISHED) return;
       wait_token(me);
@@ -819,6 +826,7 @@ static void post_impl(Thr* me, int kind, const volatile void* addr, unsigned siz
     me->nops++;
     g.wver++;
     me->own_writes++;
+    me->burst = 0;
     wake_spinners();
     return;
   }
@@ -835,6 +843,8 @@ static void post_impl(Thr* me, int kind, const volatile void* addr, unsigned siz
   }
   for (int i = 0; i < me->nspin; i++)
     if (me->spin[i].pc == pc && me->spin[i].addr == (const void*)addr && me->spin[i].val == nv) {
+      if (me->burst && me->burst_iters++ < 100000) return; // spinning on through a deviation, see reschedule
+      me->burst = 0;
       spin_yield(me);
       return;
     }
@@ -1142,6 +1152,15 @@ extern "C" void mc_track_dtor(const void* p) {
   if (k < 0) finish_process(MC_ST_VIOLATION, "lifetime: destructor on an object that is not live (double destroy or never constructed)");
   g_track[k].p = (const void*)1;
   g_track_live--;
+}
+extern "C" void mc_track_point(void) {
+  Thr* me = self_thr;
+  if (me && g.opts[MC_OPT_TRACK_POINTS]) {
+    sched_point(me, MC_K_USER, 0);
+    me->hist = mix3(me->hist, MC_K_USER, me->nops);
+    me->nops++;
+    me->pend_kind = MC_K_NONE;
+  }
 }
 extern "C" void mc_track_use(const void* p) {
   if (track_find(p, 0) < 0) finish_process(MC_ST_VIOLATION, "lifetime: use of an object that is not live");
